@@ -537,6 +537,32 @@ impl<'a> VisitMut for UnreachablePass<'a> {
         }
         visit_mut::visit_expr_mut(self, e);
     }
+    // R26: `assert!(c)`, `assert_eq!(a, b)`, `assert_ne!(a, b)` (statement position; message arguments ignored) ->
+    // `vx_assert(c)` / `vx_assert(a == b)` / `vx_assert(a != b)`, a prelude function with `requires c`: the panic
+    // site becomes a proof obligation
+    fn visit_stmt_mut(&mut self, st: &mut Stmt) {
+        if let Stmt::Macro(sm) = st {
+            let name = macro_name(&sm.mac.path);
+            if name == "assert" || name == "assert_eq" || name == "assert_ne" {
+                let parser = syn::punctuated::Punctuated::<Expr, Token![,]>::parse_terminated;
+                if let Ok(args) = sm.mac.parse_body_with(parser) {
+                    let a: Vec<&Expr> = args.iter().collect();
+                    let cond: Option<Expr> = match (name.as_str(), a.len()) {
+                        ("assert", n) if n >= 1 => { let c = a[0]; Some(parse_quote!(#c)) }
+                        ("assert_eq", n) if n >= 2 => { let (x, y) = (a[0], a[1]); Some(parse_quote!((#x) == (#y))) }
+                        ("assert_ne", n) if n >= 2 => { let (x, y) = (a[0], a[1]); Some(parse_quote!((#x) != (#y))) }
+                        _ => None,
+                    };
+                    if let Some(c) = cond {
+                        self.rules.hit("R26.assert_as_obligation");
+                        let call: Expr = parse_quote!(vx_assert(#c));
+                        *st = Stmt::Expr(call, Some(Default::default()));
+                    }
+                }
+            }
+        }
+        visit_mut::visit_stmt_mut(self, st);
+    }
     fn visit_item_mut(&mut self, _i: &mut Item) {}
 }
 
@@ -907,6 +933,18 @@ impl<'a> VisitMut for ChainPass<'a> {
                 call.args.push(recv);
                 sp.used += 1;
                 self.rules.hit("R18.unwrap_or_else_panic_as_precondition");
+                *e = Expr::Call(call);
+                return;
+            }
+            if sp.recv_mode == "dropclosure" {
+                // `RECV.fold(INIT, |acc, x| ..)`-like chains whose closure cannot be brought into the subset: the wrapper
+                // receives the receiver and the non-closure arguments; the closure is NOT extracted and its effect is the
+                // wrapper's ASSUMED contract (counted as a drop in the evidence).  Only when a closure argument is present.
+                if !args.iter().any(|a| matches!(a, Expr::Closure(_))) { continue; }
+                call.args.push(recv);
+                for a in args { if !matches!(a, Expr::Closure(_)) { call.args.push(a); } }
+                sp.used += 1;
+                self.rules.hit("DROP.closure_body_replaced_by_wrapper_contract");
                 *e = Expr::Call(call);
                 return;
             }
